@@ -24,7 +24,7 @@ DOC = {
  "C15.R3": "rate-limited router: inner route only on check() true; false returns RateLimited(job); bump() only on the Handled edge",
  "C15.R4": "both RateLimited arms in the factory record the stat, call the handler with RateLimited and reject the job",
  "C15.R5": "hooks: on_factory_started only from post_start, on_factory_draining only from the drain handler after the Draining store, on_factory_stopped only from post_stop; is_drained = all workers available and queue empty; stop only when drained",
- "C15.R7": "pool <-> actor index pairing: every removal from the worker pool is followed on every (value-present) path by the removal of that worker's actor id from the actor->wid index, every pool insertion by an index insertion",
+ "C15.R7": "dead workers replaced: replace_worker in the factory's supervision handler is conditioned only on the event kind, the actor->wid index lookup, the pool lookup and the spawn result (no filter on the slot id); pool <-> actor index pairing: every removal from the worker pool is followed on every (value-present) path by the removal of that worker's actor id from the actor->wid index, every pool insertion by an index insertion",
  "C15.R6": "dispatch while draining discards with Shutdown and rejects; resize: 0 returns early, new size = min(MAX, requested), shrink marks busy workers draining",
 }
 
@@ -388,7 +388,46 @@ def _fnames(fn, op):
     return out
 
 
+def dead_worker_replaced(run, db):
+    """`dead workers replaced`: in the factory's supervision handler the replacement of a worker is conditioned on nothing but
+    the event kind, the actor->wid index lookup, the pool lookup and the success of spawning the replacement -- a dead worker
+    the index knows is replaced wherever its slot lies (also a retiring slot above the current pool size: it still holds an
+    in-flight job and is counted by is_drained)"""
+    hs = [f for f in db.crate_fns("ractor") if re.search(r"factoryimpl::Factory<.*Actor>::handle_supervisor_evt::\{closure#0\}$", f.id)]
+    run.anchor("factory handle_supervisor_evt", len(hs), 1)
+    ADAPT = r"Option::<T>::(copied|cloned|and_then|map|as_mut|as_ref|as_deref|as_deref_mut)$|Option::<&T>::(copied|cloned)$|Option::<&mut T>::(copied|cloned)$|Try::branch$"
+    thr = lambda c: 0 if c.matches(ADAPT) else None
+    for f in hs:
+        rw = [c for c in f.calls() if (c.callee or "").endswith("::replace_worker")]
+        run.anchor("replace_worker calls in the factory's supervision handler", len(rw), 2, f.where())
+        for c in rw:
+            extra = []
+            for site, t in f.switches():
+                info = f.switch_info(site)
+                edges = info.get("edges") or {}
+                dom = [lab for lab, tgt in edges.items() if f.edge_dominates_plain((site.bb, tgt), c.site)] if hasattr(f, "edge_dominates_plain") else []
+                if not dom:
+                    continue
+                roots = f.origins(info["disc_place"], through=thr) if info.get("disc_place") else []
+                def okroot(r):
+                    if r["k"] in ("arg", "upvar"):
+                        return (info.get("disc_adt") or "").endswith("SupervisionEvent")
+                    if r["k"] == "call":
+                        return bool(r["call"].matches(r"HashMap::<K, V, S, A>::(get|get_mut)$|(^|::)Future::poll$"))
+                    return False
+                if not roots or not all(okroot(r) for r in roots):
+                    extra.append("%s edge of a test on %s" % ("/".join(dom), sorted(set((r["call"].name.split("::")[-1] if r["k"] == "call" else r["k"]) for r in roots)) or "?"))
+            run.check(not extra, "replace-unconditional@%s" % ("terminated" if c is rw[0] else "failed" if len(rw) > 1 and c is rw[1] else "x"),
+                      "the replacement is conditioned only on the event kind, the index and pool lookups and the spawn result",
+                      "the replacement of a dead worker is additionally conditioned on %s: a worker that dies while that condition is false (e.g. a retiring worker above the shrunk pool size that still holds a job) is never replaced, its slot stays busy for ever and the pool neither converges nor drains" % extra, c.where())
+
+
 def r7(run, db):
+    dead_worker_replaced(run, db)
+    _r7(run, db)
+
+
+def _r7(run, db):
     """pool <-> worker_by_actor pairing.  The factory resolves supervision events of workers through the actor->wid index; an
     entry that outlives its pool slot makes the late termination event of a retired worker hit whatever worker occupies that
     wid now (C15-3: the healthy replacement is replaced again and left running untracked, so the pool never converges)."""
